@@ -49,7 +49,7 @@ func coreSpaces() []gen.Space {
 
 func c01(r *mon.Run) {
 	r.Rule = "exhaustive: every core-fragment tree (identifiers unquoted/quoted incl. \"\" and non-ASCII, sub-expressions, indices 0 1 -1 2 -3, literals, raw string, @, parentheses, pipe, multi-select list/hash standalone and after a dot) with <= 2 operator nodes x a 40-document universe (every key holds each JSON type at depth 0-2), both API entry points; " +
-		"thorough: additionally every tree with 3 operator nodes on 2 documents each; plus seeded random deep core trees on random typed documents; plus paths of 1...400 steps (2000 in thorough) in six shapes (distinct keys, fields and indices alternating, self-similar a.a.a… and [1][1][1]…, cut by a pipe, inside a multi-select) on documents where skipping or repeating one step changes the answer. A fixed quarter of all cases is preceded by a failing or odd call (process-wide state must not leak). Oracle: ref.RefSet (independent evaluator, calibrated on the 768 applicable compliance cases). " +
+		"thorough: additionally every tree with 3 operator nodes on 2 documents each; plus seeded random deep core trees on random typed documents; plus every index from -(len+3) to len+3 on arrays of 0...9, 15...17, 63...65, 255...257 elements in five positions; plus paths of 1...400 steps (2000 in thorough) in six shapes (distinct keys, fields and indices alternating, self-similar a.a.a… and [1][1][1]…, cut by a pipe, inside a multi-select) on documents where skipping or repeating one step changes the answer. A fixed quarter of all cases is preceded by a failing or odd call (process-wide state must not leak). Oracle: ref.RefSet (independent evaluator, calibrated on the 768 applicable compliance cases). " +
 		"Non-trivial = distinct (expression, document) whose expected result is non-null; 'null because of a miss' is counted separately."
 	r.Exhaustive = true
 	r.Floor = 5000
@@ -130,6 +130,43 @@ func c01(r *mon.Run) {
 				t.Count("long chains with a non-null expected result")
 				t.Nontrivial("chain:" + strconv.Itoa(i))
 			}
+		}})
+	// every index from -(len+3) to len+3 on arrays of length 0..9 and around 16 / 64 / 256 elements (index equal to
+	// the length, to -length, one beyond either end), bare, after a field, inside a multi-select, after a pipe
+	ilens := []int{0, 1, 2, 3, 4, 5, 6, 7, 8, 9, 15, 16, 17, 63, 64, 65, 255, 256, 257}
+	type ivl struct{ n, idx int }
+	var ivls []ivl
+	for _, n := range ilens {
+		for k := -(n + 3); k <= n+3; k++ {
+			if n > 9 && k > -(n-2) && k < n-2 && k != 0 && k != -1 && k != 1 {
+				continue // long arrays: only the ends
+			}
+			ivls = append(ivls, ivl{n, k})
+		}
+	}
+	ws = append(ws, mon.Workload{Name: "index-versus-length", N: len(ivls) * 5,
+		Do: func(i int, t *mon.Tally) {
+			c := ivls[i/5]
+			arr := seqArray(c.n)
+			ix := gen.StIndex(int64(c.idx))
+			var tree *gen.Expr
+			var doc interface{} = map[string]interface{}{"a": arr, "b": []interface{}{arr, arr}}
+			switch i % 5 {
+			case 0:
+				tree, doc = gen.Chain(nil, ix), arr
+			case 1:
+				tree = gen.Chain(gen.Field("a"), ix)
+			case 2:
+				tree = gen.MultiList(gen.Chain(gen.Field("a"), ix), gen.Chain(gen.Field("a"), gen.StIndex(int64(-c.idx))))
+			case 3:
+				tree = gen.Pipe(gen.Field("a"), gen.Chain(nil, ix))
+			default:
+				tree = gen.Chain(gen.Field("b"), gen.StIndex(1), ix)
+			}
+			expr := gen.SpellTight(tree)
+			cx := &caseCtx{r, t, "index-versus-length", i}
+			res, _, _ := cx.runBoth(tree, expr, doc)
+			c01Account(t, tree, expr, doc, res, i)
 		}})
 	nrand := tierPick(r, 40000, 1000000)
 	ws = append(ws, mon.Workload{Name: "core-random", N: nrand,
